@@ -20,6 +20,9 @@ modes
                                                        ["p", i]  parse(sources[i]), the Program is kept      (no text)
                                                        ["e", i]  emit(the Program kept for i)  - may be repeated: the same
                                                                  Program object is emitted again
+                                                       ["ti", i, n]  emit(parse(sources[i])) ABORTED at the n-th function call inside parser.py /
+                                                                 emitter.py: a BaseException (like KeyboardInterrupt) is raised there by a trace
+                                                                 function; "calls" = number of such calls seen (n = 0: count only, nothing raised)
                                                        ["reset"] every Reduino module is dropped from sys.modules and imported
                                                                  again (a stand-in for a fresh interpreter; no text)
 
@@ -93,6 +96,30 @@ def guarded(fn, texts, per=20):
         signal.alarm(0)
 
 
+class _Injected(BaseException):
+    """stands for an asynchronous abort of a transpilation (KeyboardInterrupt, MemoryError ...)"""
+
+
+def interrupted(src, n, texts):
+    import Reduino.transpile.emitter as E
+    files = {P.__file__, E.__file__}
+    seen = [0]
+
+    def tracer(frame, event, arg):
+        if event == "call" and frame.f_code.co_filename in files:
+            seen[0] += 1
+            if n and seen[0] == n:
+                raise _Injected()
+        return None
+    sys.settrace(tracer)
+    try:
+        r = guarded(lambda: emit(parse(src)), texts)
+    finally:
+        sys.settrace(None)
+    r["calls"] = seen[0]
+    return r
+
+
 def run_ops(srcs, ops, texts):
     kept = {}
     failed = {}
@@ -106,6 +133,8 @@ def run_ops(srcs, ops, texts):
             out.append({"ok": True, "sha": None})
         elif k == "t":
             out.append(guarded(lambda: emit(parse(srcs[op[1]])), texts))
+        elif k == "ti":
+            out.append(interrupted(srcs[op[1]], op[2], texts))
         elif k == "p":
             def do_parse(i=op[1]):
                 kept[i] = parse(srcs[i])
@@ -159,7 +188,8 @@ def snapshot(obj, path="program", opaque=None, classes=None, depth=0):
 def run_reemit(srcs, other):
     out = []
     for src in srcs:
-        rec = {"shas": [], "steps": ["emit(p)", "emit(p) again", "emit(p) after emit(parse(other))", "emit(parse(src)) again"]}
+        rec = {"shas": [], "steps": ["emit(p)", "emit(p) again", "emit(p) after emit(parse(other))", "emit(parse(src)) again",
+                                    "emit(p2), p2 = parse(src) made before the first emit()"]}
         signal.alarm(30)
         try:
             try:
@@ -170,6 +200,7 @@ def run_reemit(srcs, other):
                 rec.update({"ok": False, "exc": type(e).__name__})
                 out.append(rec)
                 continue
+            p2 = parse(src)
             opaque, classes = [], set()
             s0 = json.dumps(snapshot(p, "program", opaque, classes))
             texts = []
@@ -195,6 +226,7 @@ def run_reemit(srcs, other):
                 pass
             step(lambda: emit(p))
             step(lambda: emit(parse(src)))
+            step(lambda: emit(p2))
             rec.update({"ok": True, "opaque": opaque[:8], "classes": sorted(classes), "mutated": s0 != s1})
             if len(set(rec["shas"])) > 1:
                 rec["texts"] = texts
